@@ -255,6 +255,35 @@ Theorem C18_resolve_no_sign_unchanged :
              /\ spec_resolve ev (gr_procs g) = Some (group_obs g).
 Proof. exact resolve_no_sign_unchanged. Qed.
 
+(* '@' on a uniform group: exactly spec_at *)
+Theorem C18_resolve_at_refines_spec :
+  forall ev g L,
+  NoDup (instances ev) ->
+  gr_at g = Some L -> L <> [] -> truthy (gr_hash g) = false ->
+  uniform_at (gr_procs g) = Some L ->
+  exists g', resolve_rules ev g = Ok g' /\ group_obs g' = spec_at ev L (gr_procs g).
+Proof. exact resolve_at_refines_spec. Qed.
+
+(* '#' on a fresh uniform group: exactly spec_hash_fresh *)
+Theorem C18_resolve_hash_refines_spec :
+  forall ev g L,
+  NoDup (instances ev) ->
+  gr_hash g = Some L -> truthy (gr_at g) = false ->
+  uniform_hash (gr_procs g) = Some L -> fresh (gr_procs g) = true ->
+  ref_identifiers ev L <> [] ->
+  exists g', resolve_rules ev g = Ok g'
+             /\ group_obs g' = spec_hash_fresh (ref_identifiers ev L) (gr_procs g).
+Proof. exact resolve_hash_refines_spec. Qed.
+
+(* MODEL REFINES SPEC (resolution of a homogeneous group) *)
+Theorem C18_resolution_refines_spec :
+  forall ev g ts,
+  NoDup (instances ev) -> group_consistent g ->
+  spec_resolve ev (gr_procs g) = Some ts ->
+  class_hash_empty_ref ev g = false ->
+  exists g', resolve_rules ev g = Ok g' /\ group_obs g' = ts.
+Proof. exact resolution_refines_spec. Qed.
+
 (* ---------------------------------------------------------------- options *)
 From Sup Require Import Options OptionsProofs.
 
